@@ -43,9 +43,17 @@ ASSUME = ['h5py / HDF5 library, numpy, numba kernels trusted',
 WN = fx.WN_GRIDS[7]
 
 
+_BY = [False]       # building the bystander model: other values everywhere, files in other directories
+
+
 def gv(name, base, spread=0.05):
     """generic value: base*(1 +- spread), deterministic in (VERIF_SEED, name)"""
-    return float(base * (1.0 + spread * (2.0 * fx.rng('c16', name).uniform() - 1.0)))
+    v = float(base * (1.0 + spread * (2.0 * fx.rng('c16', name).uniform() - 1.0)))
+    return v * 1.07 if _BY[0] else v
+
+
+def _dir(name):
+    return fx.fresh_dir(name + ('_by' if _BY[0] else ''))
 
 
 # ================================================================================================
@@ -372,7 +380,7 @@ def make_temperature(letter, N, pmax, pmin):
         return TemperatureArray(tp_array=[gv('ta.T0', 1700.0), gv('ta.T1', 1000.0), gv('ta.T2', 600.0)],
                                 p_points=[pmax, gv('ta.P1', 1e2), pmin])
     if letter == 'tfile':
-        d = fx.fresh_dir('c16tfile')
+        d = _dir('c16tfile')
         p = os.path.join(d, 'tp.txt')
         P = np.logspace(np.log10(pmax), np.log10(pmin), 4)
         T = [gv('tf.T%d' % i, t) for i, t in enumerate([1650.0, 1300.0, 900.0, 650.0])]
@@ -459,7 +467,7 @@ def build_model(cfg):
         fill = (['H2', 'He', 'CO2'], fill[1])
     if c['gases'] == 'chemfile':
         from taurex.chemistry import ChemistryFile
-        fn = os.path.join(fx.fresh_dir('c16chemfile'), 'mix.txt')
+        fn = os.path.join(_dir('c16chemfile'), 'mix.txt')
         h2o = np.array([gv('cf%d' % i, x) for i, x in enumerate(np.logspace(-3.3, -4.5, N))])
         ch4 = np.full(N, gv('cf.ch4', 3e-4))
         rest = 1.0 - h2o - ch4
@@ -478,9 +486,13 @@ def build_model(cfg):
         press = ArrayPressureProfile(np.logspace(np.log10(pmin), np.log10(pmax), N), reverse=True)
     elif c['press'] == 'file':
         from taurex.pressure import FilePressureProfile
-        fn = os.path.join(fx.fresh_dir('c16pfile'), 'p.txt')
-        np.savetxt(fn, np.column_stack([np.arange(N), np.logspace(np.log10(pmin), np.log10(pmax), N) / 1e5]))
-        press = FilePressureProfile(filename=fn, usecols=1, units='bar', reverse=True)
+        fn = os.path.join(_dir('c16pfile'), 'p.txt')
+        if _BY[0]:      # the bystander reads a bottom-up single-column file in Pa with the default arguments
+            np.savetxt(fn, np.logspace(np.log10(pmax), np.log10(pmin), N))
+            press = FilePressureProfile(filename=fn)
+        else:
+            np.savetxt(fn, np.column_stack([np.arange(N), np.logspace(np.log10(pmin), np.log10(pmax), N) / 1e5]))
+            press = FilePressureProfile(filename=fn, usecols=1, units='bar', reverse=True)
     else:
         raise ValueError(c['press'])
     kw = dict(planet=Planet(planet_mass=gv('pl.m', 0.8), planet_radius=gv('pl.r', 1.1),
@@ -812,6 +824,13 @@ def model_case(case):
     register_opacities()
     d = fx.fresh_dir('c16c')
     m1 = build_model(case)
+    # a bystander: a second model of the same component classes with other values and other files, created after the
+    # first and alive while the first is written and reloaded (nothing of it may end up in the first one's file)
+    _BY[0] = True
+    try:
+        bystander = build_model(case)
+    finally:
+        _BY[0] = False
     hist = case.get('hist', 'fresh')
     if hist in ('setall', 'eval-setall'):
         if hist == 'eval-setall':
